@@ -73,6 +73,9 @@ Inductive category := CatScalar | CatMessage | CatMap.
 (* Rust element types of the numeric codec macros *)
 Inductive rust_num := RBool | RI32 | RI64 | RU32 | RU64 | RF32 | RF64.
 
+(* decode_varint_slow: `for count in 0..min(10, <this>)` *)
+Inductive slow_bound := SBRemaining | SBChunk | SBNone.
+
 (* decode errors, by cause (DecodeError carries only a description string) *)
 Inductive perr :=
 | PVarint          (* "invalid varint" *)
